@@ -25,7 +25,7 @@ RULE = ('a case = a generated host program (nested calls across modules, if/else
         'functions with spans) and kf-stack (method + line span pending at a function end) are instances of the two '
         'known findings; stream cfg-emptied: the host program calls a hook that empties the installed tracepoint list '
         '(handler.new_config([]) / handler.shutdown()) in the middle of a function with deferred work open; stream fault: '
-        'span(s) + a deferred method capture registered by one event, the recording push service raises at chosen '
+        'spans + deferred method captures (any order) registered by one event, the recording push service raises at chosen '
         'completions (after recording the attempt): every item still completes exactly once. Non-trivial = at least two contexts opened on some thread and one of them nested in or '
         'overlapping another. Distinct = distinct canonical JSON.')
 TRUSTED = ['CPython 3.12 trace-event discipline (the model and the oracle consume the recorded reference stream; the '
@@ -41,7 +41,6 @@ ASSUMPTIONS = ['host programs are deterministic (same events under the recorder 
 
 FID_REC = 'C15/recursion-name-match'
 FID_STACK = 'C15/top-only-stacked-contexts'
-FID_FAULT = 'C15/failed-completion-skips-rest'
 CLOSES = ('span-close', 'cap-close')
 OPENS = ('span-open', 'cap-open')
 
@@ -120,33 +119,14 @@ def stack_case():
 
 def fault_case():
     # two deferred captures and a span registered by one event; the push of the FIRST capture fails at completion:
-    # CallbackContext.process stops at the first callback that raises, the span and the second capture of the
-    # same context are never completed (the context was already removed)
+    # the span and the second capture of the same context are still completed, once (fixed in d5aa530)
     return {'kind': 'prog', 'mode': 'sys', 'files': {'m0.py': HOOK_SRC % 'none'}, 'entries': [['m0', 'f', 1]],
             'tps': [cap_tp(0, 'm0.py', method='h'), span_tp(1, 'm0.py', method='h'), cap_tp(2, 'm0.py', method='h')],
-            'push_fail': [0], 'scripts': {}, 'sched': [], 'model_seed': 7, 'stream': 'kf-fault'}
-
-
-def failed_not_last(case, obs):
-    """instance predicate of FID_FAULT: a completion that failed (the push raised) belongs to a context that has
-    further deferred items after it (later in configuration order at the same location)."""
-    deferred = [tp for tp in case['tps'] if tp.get('capture') or 'span' in tp.get('args', {})]
-    for effs in obs.get('effects', {}).values():
-        for o in effs:
-            if o.get('failed'):
-                me = next((tp for tp in deferred if tp['id'] == o['tp']), None)
-                if me is None:
-                    continue
-                after = deferred[deferred.index(me) + 1:]
-                if any(th.tp_location(tp) == th.tp_location(me) for tp in after):
-                    return True
-    return False
+            'push_fail': [0], 'scripts': {}, 'sched': [], 'model_seed': 7, 'stream': 'fault'}
 
 
 def known_replays():
-    return [(FID_FAULT, 'two captures and a span registered by one event, the push of the first capture fails: the '
-                        'remaining deferred items of that context are never completed', fault_case()),
-            (FID_REC, 'rec(2) with a method span that fires once: the span opened in rec(2) is closed at rec(0)\'s '
+    return [(FID_REC, 'rec(2) with a method span that fires once: the span opened in rec(2) is closed at rec(0)\'s '
                       'return (callbacks match by file + function name, not by frame)', rec_case()),
             (FID_STACK, 'method span on f and line span on f\'s last line: at f\'s return only the top context is '
                         'examined, the method span is never closed and stays pending on the thread', stack_case())]
@@ -217,6 +197,7 @@ def gen_case(rng, tier, stream='main'):
     hook = None
     fault = stream == 'fault'
     if fault:
+        fault = rng.choice(['exc', 'exc', 'base'])
         mode, nthreads, stream = rng.choice(['sys', 'threads']), rng.choice([1, 2]), 'main'
     if stream == 'cfg-emptied':
         # the installed tracepoint list is emptied (a poll without tracepoints / a shutdown) by a hook the host
@@ -230,16 +211,24 @@ def gen_case(rng, tier, stream='main'):
             entries = [['m0', 'f0', rng.randint(0, 3)]]
         tps = gen_tps(rng, prog, entries)
         if fault:
-            # several deferred items registered by ONE event: span(s) first, the deferred method capture last, on
+            # several deferred items registered by ONE event: spans and deferred method captures in any order, on
             # functions that are called; the push of some deferred snapshots fails exactly at their completion.
             # (All on function entries: they complete at return / exception events, where no tracepoint is.)
             _, ex_calls = th.executed(prog['files'], entries)
             ex_calls = sorted({(os.path.basename(f), fn) for f, fn in ex_calls if fn.startswith('f') or fn == 'meth'})
             tps = []
             for f, fn in rng.sample(ex_calls, min(len(ex_calls), rng.randint(1, 3))):
-                for _ in range(rng.randint(1, 2)):
-                    tps.append(span_tp(len(tps), f, method=fn, via=rng.choice(['resp', 'custom'])))
-                tps.append(cap_tp(len(tps), f, method=fn))
+                items = [('span', None)] * rng.randint(1, 2) + [('cap', None)] * rng.randint(1, 2)
+                rng.shuffle(items)           # the failing completion may be at any position of the context
+                if fault == 'base':
+                    # a failure that is not an `Exception` leaves CallbackContext.process: only as the LAST item of
+                    # its context (what it does to the items after it is not the property's subject)
+                    items = [('span', None)] * rng.randint(1, 2) + [('cap', None)]
+                for kind, _ in items:
+                    if kind == 'span':
+                        tps.append(span_tp(len(tps), f, method=fn, via=rng.choice(['resp', 'custom'])))
+                    else:
+                        tps.append(cap_tp(len(tps), f, method=fn))
         if hook:
             info = prog['meta']['lines']['m0']
             fn = info.get('hook_fn', 'f0')
@@ -270,6 +259,8 @@ def gen_case(rng, tier, stream='main'):
         if fault:
             case['push_fail'] = sorted(rng.sample(range(5), rng.randint(1, 3)))
             case['stream'] = 'fault'
+            if fault == 'base':
+                case['push_fail_kind'] = 'base'
         if mode == 'seq':
             case['sequential'] = True
         streams = reference_streams(case)
@@ -381,6 +372,13 @@ def corpus():
         {'kind': 'prog', 'mode': 'sys', 'files': {'m0.py': HOOK_SRC % 'none'}, 'entries': [['m0', 'f', 1]],
          'tps': [span_tp(0, 'm0.py', method='h'), cap_tp(1, 'm0.py', method='h')], 'push_fail': [0],
          'scripts': {}, 'sched': [], 'model_seed': 6, 'stream': 'fault'},
+        # a failure that is not an Exception (BaseException) at the completion of the last item of a context: the
+        # context is done, nothing is completed a second time
+        {'kind': 'prog', 'mode': 'sys', 'files': {'m0.py': HOOK_SRC % 'none'}, 'entries': [['m0', 'f', 1]],
+         'tps': [span_tp(0, 'm0.py', method='h'), cap_tp(1, 'm0.py', method='h')], 'push_fail': [0],
+         'push_fail_kind': 'base', 'scripts': {}, 'sched': [], 'model_seed': 8, 'stream': 'fault'},
+        # the probe p_c15_failed_completion_skips_rest: the first of three deferred items fails at completion
+        fault_case(),
         # a polluter first (method + line span pending at f's return: the method span stays pending when the thread
         # ends, known finding), then fresh threads one after the other (thread idents are reused): nothing may be
         # inherited by them
@@ -535,8 +533,6 @@ def known_finding(case, obs):
     bad = [t for t in threads_of(case) if oracle_thread(case, obs, t)]
     if not bad or not obs['host_same'] or not obs['trace_kept']:
         return None
-    if case.get('push_fail') and failed_not_last(case, obs):
-        return FID_FAULT
     if any(t not in threads_of(case) for t in obs['effects']):
         return None
     if not all(flags[t][0] or flags[t][1] for t in bad):
